@@ -10,8 +10,10 @@ package lnwire
 //          ReadMessage must not panic, returns quickly, and when it succeeds the
 //          re-encoding is a canonical fixpoint of at most 65535 bytes.
 //   fail : same for onion failure packets.
-// For the message types that have a hand-written layout in Wire/Model.v the
-// field values are emitted too, for the byte-exact comparison with the model.
+// The element-codec fields of every decoded message are emitted too
+// (vFieldMap): for the message types that have a layout in Gen/GenWire.v
+// (translated from the Encode/Decode methods) the Coq model must produce the
+// same verdict, field values and re-encoded bytes.
 
 import (
 	"bytes"
@@ -19,6 +21,7 @@ import (
 	"encoding/binary"
 	"encoding/hex"
 	"fmt"
+	"image/color"
 	"net"
 	"reflect"
 	"sort"
@@ -27,6 +30,8 @@ import (
 	"testing"
 	"time"
 
+	"github.com/btcsuite/btcd/btcec/v2"
+	"github.com/btcsuite/btcd/wire/v2"
 	"pgregory.net/rapid"
 )
 
@@ -167,45 +172,84 @@ func vBool(b bool) uint64 {
 	return 0
 }
 
-// vFields returns the wire fields of m in layout order, or nil when the type
-// has no hand-written layout in the Coq model.
-func vFields(m Message) [][]string {
-	switch c := m.(type) {
-	case *Warning:
-		return [][]string{fB(c.ChanID[:]), fB(c.Data)}
-	case *Error:
-		return [][]string{fB(c.ChanID[:]), fB(c.Data)}
-	case *Stfu:
-		return [][]string{fB(c.ChanID[:]), fN(vBool(c.Initiator)), fB(c.ExtraData)}
-	case *Ping:
-		return [][]string{fN(uint64(c.NumPongBytes)), fB(c.PaddingBytes)}
-	case *Pong:
-		return [][]string{fB(c.PongBytes)}
-	case *UpdateFailHTLC:
-		return [][]string{fB(c.ChanID[:]), fN(c.ID), fB(c.Reason), fB(c.ExtraData)}
-	case *UpdateFee:
-		return [][]string{fB(c.ChanID[:]), fN(uint64(c.FeePerKw)), fB(c.ExtraData)}
-	case *UpdateFailMalformedHTLC:
-		return [][]string{fB(c.ChanID[:]), fN(c.ID), fB(c.ShaOnionBlob[:]),
-			fN(uint64(c.FailureCode)), fB(c.ExtraData)}
-	case *ChannelAnnouncement1:
-		return [][]string{fB(c.NodeSig1.bytes[:]), fB(c.NodeSig2.bytes[:]),
-			fB(c.BitcoinSig1.bytes[:]), fB(c.BitcoinSig2.bytes[:]),
-			fB(vFeatBytes(c.Features)), fB(c.ChainHash[:]),
-			fN(c.ShortChannelID.ToUint64()), fB(c.NodeID1[:]), fB(c.NodeID2[:]),
-			fB(c.BitcoinKey1[:]), fB(c.BitcoinKey2[:]), fB(c.ExtraOpaqueData)}
-	case *AnnounceSignatures1:
-		return [][]string{fB(c.ChannelID[:]), fN(c.ShortChannelID.ToUint64()),
-			fB(c.NodeSignature.bytes[:]), fB(c.BitcoinSignature.bytes[:]),
-			fB(c.ExtraOpaqueData)}
-	case *ReplyShortChanIDsEnd:
-		return [][]string{fB(c.ChainHash[:]), fN(uint64(c.Complete)), fB(c.ExtraData)}
-	case *Custom:
-		if c.Type == CustomTypeStart {
-			return [][]string{fB(c.Data)}
+// vFieldMap projects the exported top-level fields of a decoded message that
+// have an element codec (integers, byte arrays/slices, signatures, public
+// keys, short channel ids, outpoints, feature vectors, colours) to
+// name -> ["n", decimal] | ["b", hex].  props/c10.py orders them by the field
+// list the translator extracted from the Encode/Decode methods (Gen/GenWire.v).
+func vFieldMap(m Message) map[string][]string {
+	out := map[string][]string{}
+	v := reflect.ValueOf(m)
+	if v.Kind() != reflect.Ptr || v.IsNil() || v.Elem().Kind() != reflect.Struct {
+		return out
+	}
+	v = v.Elem()
+	byteArr := func(a reflect.Value) []byte {
+		b := make([]byte, a.Len())
+		for i := range b {
+			b[i] = byte(a.Index(i).Uint())
+		}
+		return b
+	}
+	for i := 0; i < v.NumField(); i++ {
+		sf := v.Type().Field(i)
+		if !sf.IsExported() {
+			continue
+		}
+		name, f := sf.Name, v.Field(i)
+		switch x := f.Interface().(type) {
+		case ShortChannelID:
+			out[name] = fN(x.ToUint64())
+			continue
+		case Sig:
+			out[name] = fB(x.bytes[:])
+			continue
+		case []Sig:
+			var all []byte
+			for _, s := range x {
+				all = append(all, s.bytes[:]...)
+			}
+			out[name] = fB(all)
+			continue
+		case *btcec.PublicKey:
+			if x != nil {
+				out[name] = fB(x.SerializeCompressed())
+			}
+			continue
+		case *RawFeatureVector:
+			out[name] = fB(vFeatBytes(x))
+			continue
+		case RawFeatureVector:
+			out[name] = fB(vFeatBytes(&x))
+			continue
+		case wire.OutPoint:
+			out[name+".Hash"] = fB(x.Hash[:])
+			out[name+".Index"] = fN(uint64(x.Index))
+			continue
+		case color.RGBA:
+			out[name+".R"] = fN(uint64(x.R))
+			out[name+".G"] = fN(uint64(x.G))
+			out[name+".B"] = fN(uint64(x.B))
+			continue
+		}
+		switch f.Kind() {
+		case reflect.Uint8, reflect.Uint16, reflect.Uint32, reflect.Uint64:
+			out[name] = fN(f.Uint())
+		case reflect.Int64:
+			out[name] = fN(uint64(f.Int()))
+		case reflect.Bool:
+			out[name] = fN(vBool(f.Bool()))
+		case reflect.Array:
+			if f.Type().Elem().Kind() == reflect.Uint8 {
+				out[name] = fB(byteArr(f))
+			}
+		case reflect.Slice:
+			if f.Type().Elem().Kind() == reflect.Uint8 {
+				out[name] = fB(f.Bytes())
+			}
 		}
 	}
-	return nil
+	return out
 }
 
 func vHasExtra(m Message) bool {
@@ -286,9 +330,9 @@ func vCheckBytes(t MessageType, b []byte, mut string, base []byte) vRow {
 	case *ReplyChannelRange:
 		row["nids"] = len(q.ShortChanIDs)
 	}
-	if f := vFields(m); f != nil && len(b) <= 6000 {
-		row["model"] = true
-		row["fields"] = f
+	if len(b) <= 6000 {
+		// before WriteMessage: Encode overwrites ExtraData for some types
+		row["fmap"] = vFieldMap(m)
 	}
 	d1 := vDump(m)
 	b1, err, pan := vWrite(m)
@@ -303,7 +347,7 @@ func vCheckBytes(t MessageType, b []byte, mut string, base []byte) vRow {
 		return row
 	}
 	row["len1"] = len(b1)
-	if row["model"] == true {
+	if len(b) <= 6000 && len(b1) <= 6000 {
 		row["reenc"] = whx(b1)
 	}
 	m2, err, pan, _ := vRead(b1)
@@ -461,7 +505,7 @@ func TestVerifWire(t *testing.T) {
 				continue
 			}
 			d0 := vDump(m)
-			f0 := vFields(m)
+			f0 := vFieldMap(m)
 			b, err, pan := vWrite(m)
 			if pan != "" {
 				row["panic"] = pan
@@ -476,8 +520,8 @@ func TestVerifWire(t *testing.T) {
 				continue
 			}
 			row["len"] = len(b)
-			if f0 != nil && len(b) <= 6000 {
-				out.emit(vRow{"k": "write", "model": true, "t": int(mt), "fields": f0,
+			if len(b) <= 6000 {
+				out.emit(vRow{"k": "write", "t": int(mt), "fmap": f0,
 					"ok": true, "out": whx(b)})
 			}
 			m2, err, pan, _ := vRead(b)
